@@ -12,5 +12,5 @@ INVARIANT TypeOK
 INVARIANT Symmetric
 INVARIANT ZeroDiagonal
 INVARIANT ColumnOrderFree
-INVARIANT ShortcutSoundOnCanonical
+INVARIANT ShortcutSound
 INVARIANT ShortcutKeepsComputed
